@@ -240,6 +240,13 @@ func (b *btype) sexp() sx.Sexp {
 	if b.max != nil {
 		mx = sx.Int(*b.max)
 	}
+	if b.types != nil {
+		ps := make([]sx.Sexp, len(b.types))
+		for i, p := range b.types {
+			ps[i] = sx.A(p)
+		}
+		return sx.T("ct", sx.L(ps...), sx.Int(*b.min), mx)
+	}
 	return sx.T("c", sx.Int(*b.min), mx)
 }
 
@@ -690,6 +697,7 @@ func gen(g *core.G) {
 		args, blk := randTable(r).randArgs(r)
 		g.Emit(callLine(t, args, blk))
 	}
+	genTypedBlocks(g)
 	genCalls(g)
 	genNewM(g)
 	genWrap(g)
